@@ -15,6 +15,9 @@ _INTKINDS = "iub"
 
 
 def _is_float_dtype(dtype):
+    from .sym import _SymDType
+    if isinstance(dtype, _SymDType):
+        return True
     if dtype is None:
         return True
     try:
